@@ -276,6 +276,9 @@ def make_native(stub, platform):
                 if fname in ("getpriority", "setpriority") and \
                         pid not in k.procs and pid != 0:
                     raise make_error(errno.ESRCH)
+                if fname == "proc_cmdline" and kw.get("use_peb") is False \
+                        and getattr(stub, "win_old", False):
+                    raise RuntimeError("requires Windows 8.1+")
                 return default_result(stub, k, fname, args)
             f.__name__ = fname
             return f
@@ -468,10 +471,15 @@ class Foreign(EngineBase):
     SHRINK_LISTS = [("faults",)]
 
     def boot_config(self, rng):
-        return {"platform": rng.choice(PLATFORMS)}
+        b = {"platform": rng.choice(PLATFORMS)}
+        if b["platform"] == "win32" and rng.random() < 0.5:
+            b["win_old"] = True
+        return b
 
     def boot_config_for(self, b):
-        return {"platform": PLATFORMS[b % len(PLATFORMS)]}
+        boots = [{"platform": p_} for p_ in PLATFORMS] + [
+            {"platform": "win32", "win_old": True}]
+        return dict(boots[b % len(boots)])
 
     def world(self, platform, pidkind, state):
         pid = {"ordinary": PID, "zero": 0, "low": LOWPID.get(platform, 3)}[
@@ -532,6 +540,13 @@ class Foreign(EngineBase):
     def import_psutil(self, scratch, kernel, boot):
         platform = boot["platform"]
         self.stub = Stub(platform)
+        if platform == "win32":
+            # Windows 7 (6.1) or 10: some native fallbacks only exist from
+            # 8.1 (6.3) on
+            self.stub.win_old = bool(boot.get("win_old"))
+            self.stub.consts["WINDOWS_8_1"] = 0x0603
+            self.stub.consts["WINVER"] = 0x0601 if self.stub.win_old \
+                else 0x0A00
         sysm = types.ModuleType("sys")
         import sys as real_sys
         sysm.__dict__.update({kk: vv for kk, vv in real_sys.__dict__.items()
